@@ -74,7 +74,9 @@ Inductive qtemplate :=
 | QBodyA1       (* ... WHERE CASE WHEN json_valid(body) THEN body->>'$.a' END = 1 ORDER BY id *)
 | QXattrRev (v : string) (* ... WHERE xattrs->>'$._sync.rev' = $v ORDER BY id *)
 | QSync         (* SELECT json_quote(id) AS id, xattrs->'$._sync' AS s FROM $_keyspace ORDER BY id *)
-| QLast2.       (* SELECT json_quote(id) AS id FROM $_keyspace ORDER BY id DESC LIMIT 2 *)
+| QLast2        (* SELECT json_quote(id) AS id FROM $_keyspace ORDER BY id DESC LIMIT 2 *)
+| QSyncFirst.   (* SELECT xattrs->'$._sync' AS s, json_quote(id) AS id FROM $_keyspace ORDER BY id : the leading column is NULL
+                   (and left out of the row) for a document without that xattr *)
 
 Inductive sop :=
 | SKv (coll : string) (key : string) (op : kop)
@@ -239,6 +241,10 @@ Definition eval_query (q : qtemplate) (docs : list qdoc) : list string :=
                            | None => row_id (fst (fst d))
                            end) sorted
   | QLast2 => map (fun d => row_id (fst (fst d))) (firstn 2 (rev sorted))
+  | QSyncFirst => map (fun d => match alookup String.eqb "_sync" (snd d) with
+                                | Some v => ("{""s"":" ++ v ++ ",""id"":" ++ quote (fst (fst d)) ++ "}")%string
+                                | None => row_id (fst (fst d))
+                                end) sorted
   end.
 
 (* ------------------------------------------------------------------------------------------ *)
